@@ -91,7 +91,7 @@ def check_inv(I, st, ls, k, env, tag):
         st.assume(specs.eval_clause(I, st, cl, env, fi))
     for cl in ls.invariant:
         g = specs.eval_clause(I, st, cl, env, fi)
-        st.oblige("%s.loop[%d].%s[%s]" % (I.short(fi), k, tag, cl.label), g,
+        st.oblige("%s.loop[%s].%s[%s]" % (I.short(fi), k, tag, cl.label), g,
                   meta={"kind": "loop_" + tag, "clause": cl.text, "props": cl.props})
 
 
@@ -107,8 +107,9 @@ def havoc(I, st, ls, env, names):
     ov = getattr(st, "gen_loop_override", None)
     if ov is not None and st.frame.func is not None and st.frame.func.qualname == ov[0]:
         cons, fnode = ov[1], ov[4]
-        cnames = assigned_names(fnode.body) | {n.id for n in ast.walk(fnode.target) if isinstance(n, ast.Name)}
-        _havoc_vars(st, cons.vars, cnames)
+        if isinstance(fnode, ast.For):
+            cnames = assigned_names(fnode.body) | {n.id for n in ast.walk(fnode.target) if isinstance(n, ast.Name)}
+            _havoc_vars(st, cons.vars, cnames)
     _havoc_vars(st, st.locals, names)
 
 
